@@ -18,7 +18,8 @@ static struct { uint8_t first_seen; } M19;
 static uint32_t base_blocks; static uint64_t base_bytes;      /* the per-interface record of a fresh responder, measured */
 
 static int SIB_EV = -1, SIB_CV = -1;           /* c09 --b 1: index of the one event that arrives on the responder's second interface */
-static void ev_name(int ev, char *buf, size_t cap) { if (ev == SIB_EV) { snprintf(buf, cap, "on the second interface: "); buf += strlen(buf); cap -= 25; } pev_name(&EV[ev], buf, cap); }
+static int IF0_EV = -1;      /* (second-interface closures) the first interface's own mapper sends another Discover THERE: it is still that interface's mapper */
+static void ev_name(int ev, char *buf, size_t cap) { if (ev == IF0_EV) { snprintf(buf, cap, "on the first interface: "); buf += strlen(buf); cap -= 24; } if (ev == SIB_EV) { snprintf(buf, cap, "on the second interface: "); buf += strlen(buf); cap -= 25; } pev_name(&EV[ev], buf, cap); }
 static void cv_name(int ev, char *buf, size_t cap) { if (ev == SIB_CV) { snprintf(buf, cap, "on the second interface: "); buf += strlen(buf); cap -= 25; } pev_name(&CV[ev], buf, cap); }
 static void touch_if0(void) { if (IFX) { pev d = ev_discover(0, ST_M3, ST_M3, 0x7777, 3); vf_trace_clear(); drv_linux(&d, 0); pev p = ev_probe(0x04, 0, ST_S1, ST_S1, ST_OWN, ST_OWN); drv_linux(&p, 0); vf_trace_clear(); } }
 static void root_setup(void) { M.arb.v = ARB_NONE; touch_if0(); }
@@ -26,6 +27,12 @@ static void root_setup(void) { M.arb.v = ARB_NONE; touch_if0(); }
 static void apply_pev(const pev *e);
 static void apply(int ev) {
     if (ev == SIB_EV) { drv_linux(&EV[ev], 1); return; }
+    if (ev == IF0_EV) {
+        drv_linux(&EV[ev], 0);
+        if (mode == 2) oracle_wellformed(0);
+        if (mode == 3) oracle_hello(&EV[ev], 0, 1);
+        return;
+    }
     apply_pev(&EV[ev]);
 }
 static void apply_pev(const pev *e) {
@@ -272,6 +279,7 @@ int main(int argc, char **argv) {
     if (mode == 9 && A.b == 1) {      /* a responder with two interfaces: a frame that changes nothing (a neighbour's Hello) may arrive on the other one at any point */
         SIB_EV = NEV; EV[NEV++] = ev_hello(0, ST_PEER, 0x3412); SIB_CV = NCV; CV[NCV++] = ev_hello(0, ST_PEER, 0x3412);
     }
+    if (IFX) { IF0_EV = NEV; EV[NEV++] = ev_discover(0, ST_M3, ST_M3, 0x7778, 4); }
     c3.nev = NCV;
     e1_cfg cfg = { .nev = NEV, .ev_name = ev_name, .apply = apply, .root_setup = root_setup, .model = &M, .model_size = sizeof M,
                    .deadline_s = A.deadline };
@@ -281,17 +289,17 @@ int main(int argc, char **argv) {
         A.verbose = 1;
         if (mode == 9) return e3_replay_file(&c3, A.replay);
         if (mode == 3 && A.a == 3) return e1_replay_file(&vscfg, A.replay);
-        if (mode == 3 && A.a == 5) return e1_replay_file(&gfcfg, A.replay);
+        if ((mode == 3 || mode == 2) && A.a == 5) return e1_replay_file(&gfcfg, A.replay);
         if (mode == 2 && A.a == 4) return e1_replay_file(&nscfg, A.replay);
         return e1_replay_file(&cfg, A.replay);
     }
     double t0 = vf_now_s();
     e1_stats st;
-    if (mode == 3 && A.a == 5) {
+    if ((mode == 3 || mode == 2) && A.a == 5) {
         memset(&st, 0, sizeof st);
         getter_sweep03();
         st.transitions = gf_cases; st.fixpoint = 1;
-        vf_sample("getter-failure sweep: {each of 15 getters failing alone, all failing} x {wired, wireless} x both services x direct/bridged x first/repeated Discover: the Hello's header fields as demanded");
+        vf_sample("getter-failure sweep: {each of 15 getters failing alone, all failing} x {wired, wireless} x both services x direct/bridged x first/repeated Discover: %s", mode == 3 ? "the Hello's header fields as demanded" : "the Hello well-formed (property list parses to the end marker in the last byte) and solicited");
     } else if (mode == 3 && A.a == 3) {
         memset(&st, 0, sizeof st);
         value_sweep03();
@@ -309,7 +317,7 @@ int main(int argc, char **argv) {
         uint64_t states1 = st.states;
         e1_stats st2;
         W.fill = (uint8_t)~A.fill;      /* 0xA5 -> 0x5A */
-        cfg.record_outhash = 0; cfg.compare_outhash = h1; cfg.compare_n = n1;
+        cfg.record_outhash = 0; cfg.compare_outhash = h1; cfg.compare_n = n1; cfg.compare_partial = !st.fixpoint;
         e1_run(&cfg, &st2);
         if (st.fixpoint && st2.fixpoint && (st2.states != states1 || st2.transitions != st.transitions))
             vf_violation("output-depends-on-uninitialised-memory:graph", "state graph differs between fill patterns: %llu/%llu states, %llu/%llu transitions", (unsigned long long)states1, (unsigned long long)st2.states, (unsigned long long)st.transitions, (unsigned long long)st2.transitions);
